@@ -18,7 +18,7 @@ RULE = ("generated CSV files driven through the real outrank_task_conduct_rankin
         "non-trivial = at least one batch boundary or tail decision within 2 rows of the accepted-row count, or a malformed "
         "selected row; distinct = distinct (B, s, ncols, line layout, heuristic, mode)")
 THEOREMS = ["C08_batches", "C08_chunks", "C08_chunks_unique", "C08_selected", "C08_invalid_count", "C08_median",
-            "C08_median_rows", "C08_median_one_row_per_pair", "C08_scores_of", "C08_median2_meaning", "C08_sorted",
+            "C08_median_rows", "C08_median_one_row_per_pair", "C08_scores_of", "C08_median2_meaning", "C08_median_rank", "C08_sorted",
             "C08_checkpoint_prefix", "C08_grouped", "C08_model_spec", "C08_check_sound"]
 TAIL_MIN = 1024          # the property's constant; coq/Pipeline/Stream.v tail_min
 HEURISTICS = ["MI-numba-randomized", "max-value-coverage", "MI-numba"]
@@ -128,6 +128,22 @@ def boundary_grid():
                     out.append({"B": B, "s": s, "cols": cols, "heuristic": "MI-numba-randomized", "target_only": "True",
                                 "seed": 7, "segments": [[n, 4, 0]], "entry": "task", "trailing_newline": True,
                                 "crlf": False, "family": "grid"})
+    return out
+
+
+def small_scope():
+    """Exhaustive small scope (thorough tier): every good/malformed layout of up to 5 lines for B in 1..3, s in 1..2.
+    (The tail rule cannot fire here; the loop logic - selection, skipping, trigger, reset, checkpoints - can.)"""
+    import itertools
+    out = []
+    for B in (1, 2, 3):
+        for s in (1, 2):
+            for n in range(0, 6):
+                for bits in itertools.product((0, 1), repeat=n):
+                    lines = [(3, 0) if b else (2, 0) for b in bits]
+                    out.append({"B": B, "s": s, "cols": ["id", "f1", "label"], "heuristic": "max-value-coverage",
+                                "target_only": "True", "seed": 3, "segments": rle(lines), "entry": "task",
+                                "trailing_newline": True, "crlf": False, "family": "small-scope"})
     return out
 
 
@@ -397,12 +413,14 @@ def check(run, replay):
         cases = [replay["case"]]
     else:
         cases = load_corpus("C08")
-        n = 72 if run.tier == "quick" else 420
+        n = 72 if run.tier == "quick" else 1200
         fams = ["tail", "tail", "lines", "small", "random", "tail"]
         for i in range(n):
             cases.append(gen_case(run.rng, fams[i % len(fams)] if i < 18 else None))
         if run.tier == "thorough":
             cases.extend(boundary_grid())
+            cases.extend(small_scope())
+            run.cov["exhaustive_small_scope"] = "all good/malformed layouts of <= 5 lines, B in 1..3, s in 1..2 (378 files) included"
     root = os.path.join(vlib.CACHE, "c08", str(os.getpid()))
     results = vlib.run_impl("impl_c08.py", {"cases": cases, "root": root})["results"]
     ev = evaluate(run, cases, results)
